@@ -14,6 +14,8 @@ package binding
 //@ ghost decodedKind(ref) int
 //@ ghost decodedFrom(ref) ref
 //@ ghost validatedOK(ref) bool
+// decodedOK(v): the codec that last decoded into v reported no error.
+//@ ghost decodedOK(ref) bool
 //
 //@ extern (*net/url.URL).Query(u) (v)
 //@   ensures v == cast(uf("url.query", ref, u), url.Values)
@@ -28,20 +30,20 @@ package binding
 //@ extern github.com/monoculum/formam.NewDecoder(opts) (dec)
 //@   ensures dec != nil
 //@ extern (github.com/monoculum/formam.Decoder).Decode(dec, vs, dst) (err)
-//@   modifies decodedKind(refof(dst)), decodedFrom(refof(dst))
-//@   ensures decodedKind(refof(dst)) == 1 && decodedFrom(refof(dst)) == vs
+//@   modifies decodedKind(refof(dst)), decodedFrom(refof(dst)), decodedOK(refof(dst))
+//@   ensures decodedKind(refof(dst)) == 1 && decodedFrom(refof(dst)) == vs && decodedOK(refof(dst)) == (err == nil)
 //@ extern encoding/json.NewDecoder(r) (dec)
 //@   ensures dec != nil && uf("json.dec.src", ref, dec) == refof(r)
 //@ extern (*encoding/json.Decoder).Decode(dec, v) (err)
 //@   requires dec != nil
-//@   modifies decodedKind(refof(v)), decodedFrom(refof(v))
-//@   ensures decodedKind(refof(v)) == 4 && decodedFrom(refof(v)) == uf("json.dec.src", ref, dec)
+//@   modifies decodedKind(refof(v)), decodedFrom(refof(v)), decodedOK(refof(v))
+//@   ensures decodedKind(refof(v)) == 4 && decodedFrom(refof(v)) == uf("json.dec.src", ref, dec) && decodedOK(refof(v)) == (err == nil)
 //@ extern encoding/xml.NewDecoder(r) (dec)
 //@   ensures dec != nil && uf("xml.dec.src", ref, dec) == refof(r)
 //@ extern (*encoding/xml.Decoder).Decode(dec, v) (err)
 //@   requires dec != nil
-//@   modifies decodedKind(refof(v)), decodedFrom(refof(v))
-//@   ensures decodedKind(refof(v)) == 5 && decodedFrom(refof(v)) == uf("xml.dec.src", ref, dec)
+//@   modifies decodedKind(refof(v)), decodedFrom(refof(v)), decodedOK(refof(v))
+//@   ensures decodedKind(refof(v)) == 5 && decodedFrom(refof(v)) == uf("xml.dec.src", ref, dec) && decodedOK(refof(v)) == (err == nil)
 //@ extern (DataValidator).Validate(self, i) (err)
 //@   modifies validatedOK(refof(i))
 //@   ensures validatedOK(refof(i)) == (err == nil)
@@ -54,15 +56,18 @@ package binding
 //@   ensures disabled: Validator == nil ==> result == nil && validatedOK(refof(obj)) == old(validatedOK(refof(obj)))
 //
 //@ func DecodeUrlValues [C18]
-//@   modifies decodedKind(refof(ptr)), decodedFrom(refof(ptr)), validatedOK(refof(ptr))
+//@   ensures codec_error_is_reported: result == nil ==> decodedOK(refof(ptr))
+//@   modifies decodedKind(refof(ptr)), decodedFrom(refof(ptr)), validatedOK(refof(ptr)), decodedOK(refof(ptr))
 //@   ensures source: decodedKind(refof(ptr)) == 1 && decodedFrom(refof(ptr)) == refof(values)
 //@   ensures success_means_validated: result == nil && Validator != nil ==> validatedOK(refof(ptr))
 //@ func decodeJSON [C18]
-//@   modifies decodedKind(refof(ptr)), decodedFrom(refof(ptr)), validatedOK(refof(ptr))
+//@   ensures codec_error_is_reported: result == nil ==> decodedOK(refof(ptr))
+//@   modifies decodedKind(refof(ptr)), decodedFrom(refof(ptr)), validatedOK(refof(ptr)), decodedOK(refof(ptr))
 //@   ensures source: decodedKind(refof(ptr)) == 4 && decodedFrom(refof(ptr)) == refof(r)
 //@   ensures success_means_validated: result == nil && Validator != nil ==> validatedOK(refof(ptr))
 //@ func decodeXML [C18]
-//@   modifies decodedKind(refof(obj)), decodedFrom(refof(obj)), validatedOK(refof(obj))
+//@   ensures codec_error_is_reported: result == nil ==> decodedOK(refof(obj))
+//@   modifies decodedKind(refof(obj)), decodedFrom(refof(obj)), validatedOK(refof(obj)), decodedOK(refof(obj))
 //@   ensures source: decodedKind(refof(obj)) == 5 && decodedFrom(refof(obj)) == refof(r)
 //@   ensures success_means_validated: result == nil && Validator != nil ==> validatedOK(refof(obj))
 //
@@ -75,7 +80,7 @@ package binding
 //
 //@ func Auto [C18]
 //@   requires r != nil && r.URL != nil
-//@   modifies decodedKind(refof(obj)), decodedFrom(refof(obj)), validatedOK(refof(obj)), r.Form, r.PostForm, r.MultipartForm
+//@   modifies decodedKind(refof(obj)), decodedFrom(refof(obj)), validatedOK(refof(obj)), decodedOK(refof(obj)), r.Form, r.PostForm, r.MultipartForm
 //@   ensures query_for_bodyless_methods: !hasBody(old(r.Method)) ==> decodedKind(refof(obj)) == 1 && decodedFrom(refof(obj)) == uf("url.query", ref, r.URL)
 //@       && r.PostForm == old(r.PostForm) && r.Form == old(r.Form)
 //@   ensures urlencoded_form: hasBody(r.Method) && isForm(ctype(r)) && err == nil ==> decodedKind(refof(obj)) == 1 && decodedFrom(refof(obj)) == uf("parsed.postform", ref, r)
@@ -85,6 +90,7 @@ package binding
 //@   ensures other_type_is_an_error: hasBody(r.Method) && !isForm(ctype(r)) && !isMultipart(ctype(r)) && !isJSON(ctype(r)) && !isXML(ctype(r)) ==> err != nil
 //@       && decodedKind(refof(obj)) == old(decodedKind(refof(obj))) && validatedOK(refof(obj)) == old(validatedOK(refof(obj)))
 //@   ensures success_means_validated: err == nil && Validator != nil ==> validatedOK(refof(obj))
+//@   ensures malformed_input_is_an_error: err == nil ==> decodedOK(refof(obj))
 //@ lemma media_types: [C18] isForm("application/x-www-form-urlencoded") && !isForm("multipart/form-data") && isMultipart("multipart/form-data")
 //@     && !isForm("application/json") && !isMultipart("application/json") && isJSON("application/json")
 //@     && !isForm("text/xml") && !isMultipart("text/xml") && !isJSON("text/xml") && isXML("text/xml")
@@ -92,10 +98,12 @@ package binding
 //@     && !isForm("") && !isMultipart("") && !isJSON("") && !isXML("") && !isForm("text/plain") && !isMultipart("text/plain") && !isJSON("text/plain") && !isXML("text/plain")
 //@ func Bind [C18]
 //@   requires r != nil && r.URL != nil
-//@   modifies decodedKind(refof(obj)), decodedFrom(refof(obj)), validatedOK(refof(obj)), r.Form, r.PostForm, r.MultipartForm
+//@   modifies decodedKind(refof(obj)), decodedFrom(refof(obj)), validatedOK(refof(obj)), decodedOK(refof(obj)), r.Form, r.PostForm, r.MultipartForm
 //@   ensures success_means_validated: result == nil && Validator != nil ==> validatedOK(refof(obj))
+//@   ensures malformed_input_is_an_error: result == nil ==> decodedOK(refof(obj))
 //@ func MustBind [C18]
 //@   requires r != nil && r.URL != nil
-//@   modifies decodedKind(refof(obj)), decodedFrom(refof(obj)), validatedOK(refof(obj)), r.Form, r.PostForm, r.MultipartForm
+//@   modifies decodedKind(refof(obj)), decodedFrom(refof(obj)), validatedOK(refof(obj)), decodedOK(refof(obj)), r.Form, r.PostForm, r.MultipartForm
 //@   panics *
 //@   ensures success_means_validated: Validator != nil ==> validatedOK(refof(obj))
+//@   ensures malformed_input_is_an_error: decodedOK(refof(obj))
